@@ -225,7 +225,10 @@ class SqliteQueue(SqliteDLQMixin, Queue):
             return None
 
         message.message_id = str(msg_id)
-        message.attempts = attempts + 1
+        # Attempts made before this delivery (0-indexed, as handle_exception
+        # expects): the larger of the retry count the message carries across
+        # re-queues (transient task retries) and this row's earlier deliveries.
+        message.attempts = max(message.attempts or 0, attempts)
 
         self._pending[msg_id] = {
             "message": message,
